@@ -15,6 +15,7 @@ import (
 
 	"pgregory.net/rapid"
 
+	"github.com/regclient/regclient/types/ref"
 	"github.com/regclient/regclient/zz_verif/evid"
 )
 
@@ -37,14 +38,16 @@ type outcome struct {
 	// TagNotCreated: nothing was written at all for a new tag in the source repository
 	TagNotCreated bool
 	B             *built
+	ChainStatus   string
+	ChainErr      string
 }
 
 var watchdogs atomic.Int64
 
 // sourceUntouched verifies the frame condition on raw source storage.
 func sourceUntouched(e *env, stage string) *finding {
-	if e.c.Tgt == "replace" {
-		return nil // the source tag is the target
+	if e.c.Tgt == "replace" && e.c.SrcForm != "digest" {
+		return nil // the source tag is (part of) the target reference
 	}
 	v := e.src.view()
 	d, ok := v.Tag(srcTag)
@@ -223,6 +226,27 @@ func keysOf(m map[string]bool) []string {
 	return out
 }
 
+// resultDigest resolves the returned reference in raw target storage. Not asserted:
+// when the top manifest is not modified and the target is a tag in the source
+// repository, Apply does not push the top manifest, so the tag is not created (or a
+// pre-existing tag is not moved). The statement promises properties of what is
+// written, not that a tag appears; if no manifest other than referrers (and their
+// fall-back indexes) was written, the resulting image is the source image.
+func (e *env) resultDigest(r ref.Ref, pre snapshot) (dig string, tagNotWritten bool, f *finding) {
+	d, tag, ok := e.resolve(r)
+	if ok && !(tag != "" && e.staleDigest != "" && d == e.staleDigest) {
+		return d, false, nil
+	}
+	post := snap(e.tgt.view())
+	if e.tgt.same(e.src) && onlyReferrersWritten(pre, post) {
+		return e.b.Top, true, nil
+	}
+	if ok {
+		return "", false, fnd("target-tag-not-updated", "Apply returned %s and wrote manifests to the target, but tag %q still names the manifest it named before the call (mode %s)", r.CommonName(), tag, e.c.Tgt)
+	}
+	return "", false, fnd("result-tag-absent-at-target", "Apply returned %s and wrote manifests to the target, but tag %q does not exist there (mode %s)", r.CommonName(), tag, e.c.Tgt)
+}
+
 // evaluate materialises the case, applies the program and runs every oracle clause.
 func evaluate(c Case) outcome {
 	b := build(c)
@@ -248,23 +272,12 @@ func evaluate(c Case) outcome {
 		return out
 	}
 	out.Status = "success"
-	dig, tag, ok := e.resolve(res.Ref)
-	tagNotCreated := false
-	if !ok {
-		// Not asserted: when the top manifest is not modified and the target is a new tag in
-		// the source repository, Apply does not push the top manifest, so the tag is not
-		// created. The statement promises properties of what is written, not that a tag
-		// appears; if no manifest other than referrers (and their fall-back indexes) was written,
-		// the resulting image is the source image.
-		post := snap(e.tgt.view())
-		if e.tgt.same(e.src) && onlyReferrersWritten(pre, post) {
-			dig, tagNotCreated = b.Top, true
-			out.TagNotCreated = true
-		} else {
-			out.F = fnd("result-tag-absent-at-target", "Apply returned %s and wrote manifests to the target, but tag %q does not exist there (mode %s)", res.Ref.CommonName(), tag, c.Tgt)
-			return out
-		}
+	dig, tagNotCreated, f0 := e.resultDigest(res.Ref, pre)
+	if f0 != nil {
+		out.F = f0
+		return out
 	}
+	out.TagNotCreated = tagNotCreated
 	out.Digest, out.Changed = dig, dig != b.Top
 	if e.tgtTag != "" && !tagNotCreated {
 		if td, ok := e.tgt.view().Tag(e.tgtTag); !ok || td != dig {
@@ -307,6 +320,9 @@ func evaluate(c Case) outcome {
 		out.F = fnd("noop-changed-digest", "every option of the program changes nothing on this source, but the result digest is %s, source is %s (program %s)", dig, b.Top, progString(c.Program))
 		return out
 	}
+	if c.CancelAt != 0 {
+		return out // a cancellation plan: the second run may be cut at a different place, not compared
+	}
 	// determinism: the same program on an identical, freshly materialised input
 	e2, err := setup(c, b)
 	if err != nil {
@@ -314,6 +330,7 @@ func evaluate(c Case) outcome {
 		return out
 	}
 	defer e2.close()
+	pre2 := snap(e2.tgt.view())
 	res2 := e2.apply(c.Program)
 	switch {
 	case res2.TimedOut:
@@ -326,13 +343,53 @@ func evaluate(c Case) outcome {
 		out.F = fnd("nondeterministic-outcome", "first Apply succeeded (digest %s), the same program on an identical input failed: %v", dig, res2.Err)
 		return out
 	}
-	dig2, _, ok2 := e2.resolve(res2.Ref)
-	if !ok2 && out.TagNotCreated {
-		dig2, ok2 = b.Top, true
-	}
-	if !ok2 || dig2 != dig {
+	dig2, _, f2 := e2.resultDigest(res2.Ref, pre2)
+	if f2 != nil || dig2 != dig {
 		out.F = fnd("nondeterministic-digest", "the same program on identical inputs returned %s and then %s (program %s)", dig, dig2, progString(c.Program))
 		return out
+	}
+	// chain: a second program applied to the result with the same client (warm manifest / referrer
+	// caches; sources that are sha512-addressed, converted, rebased ...)
+	if c.HasChain && !out.TagNotCreated {
+		pre3 := snap(e.tgt.view())
+		src2 := res.Ref
+		res3 := e.applyRef(src2, c.Chain, false, 0)
+		switch {
+		case res3.Panic != "":
+			out.F = fnd("chain-apply-panic@"+res3.PanicAt, "mod.Apply on the result of the first call panicked: %s", truncate(res3.Panic, 2500))
+			return out
+		case res3.TimedOut:
+			out.Status = "watchdog"
+			return out
+		case res3.Err != nil:
+			out.ChainStatus = "error"
+			out.ChainErr = res3.Err.Error()
+		default:
+			out.ChainStatus = "success"
+			dig3, _, ok3 := e.resolve(res3.Ref)
+			if !ok3 {
+				out.F = fnd("chain-result-absent", "second Apply returned %s, which does not resolve at the target", res3.Ref.CommonName())
+				return out
+			}
+			if _, f := auditClosure(e.tgt.view(), e.tgt.Kind == "reg", dig3); f != nil {
+				f.Clause = "chain-" + f.Clause
+				out.F = f
+				return out
+			}
+			if f := auditWritten(e.tgt.view(), e.tgt.Kind == "reg", pre3.Content); f != nil {
+				f.Clause = "chain-" + f.Clause
+				out.F = f
+				return out
+			}
+			if len(c.Chain) == 0 && dig3 != dig {
+				out.F = fnd("chain-noop-changed-digest", "the empty program applied to the result %s of the first call returned %s", dig, dig3)
+				return out
+			}
+			if f := sourceUntouched(e, "chain-"); f != nil {
+				out.F = f
+				return out
+			}
+		}
 	}
 	// layouts: what regctl does next is Close (garbage collection); the result must survive it
 	if e.tgt.Kind == "layout" || e.src.Kind == "layout" {
@@ -640,7 +697,57 @@ func check(c Case, ev *evid.Collector) *evid.Violation {
 		classes = append(classes, "shape:index-entry-data")
 	}
 	if c.Base != nil {
-		classes = append(classes, "shape:has-base")
+		classes = append(classes, "shape:has-base", "base-loc:"+map[string]string{"": "other-repo"}[c.BaseLoc]+c.BaseLoc)
+		if c.Base.AsIndex {
+			classes = append(classes, "base:index")
+		}
+	}
+	if c.Artifact != nil {
+		classes = append(classes, "shape:artifact-source-"+c.Artifact.ConfigMT)
+	}
+	if c.Nested && c.Index != "" {
+		classes = append(classes, "shape:nested-index")
+	}
+	if c.IdxNoMT || (c.Artifact == nil && c.Images[0].NoMTField) {
+		classes = append(classes, "shape:no-mediatype-field")
+	}
+	classes = append(classes, "src-form:"+map[string]string{"": "tag"}[c.SrcForm]+c.SrcForm)
+	if c.TgtPre != "" {
+		classes = append(classes, "tgt-pre:"+c.TgtPre)
+	}
+	if c.CancelAt != 0 {
+		classes = append(classes, "ctx:cancel-plan", "ctx:cancel-plan-"+out.Status)
+	}
+	if c.HasChain {
+		classes = append(classes, "chain:drawn")
+		if out.ChainStatus != "" {
+			classes = append(classes, "chain:"+out.ChainStatus)
+		}
+	}
+	if c.FeatA.LocStyle != 0 || c.FeatB.LocStyle != 0 {
+		classes = append(classes, "feat:loc-style")
+	}
+	if c.FeatA.HeadNoDigest || c.FeatB.HeadNoDigest {
+		classes = append(classes, "feat:head-no-digest")
+	}
+	if c.FeatA.AnonMount != 0 || c.FeatB.AnonMount != 0 {
+		classes = append(classes, "feat:anon-mount")
+	}
+	if c.FeatA.ChunkMin != 0 || c.FeatB.ChunkMin != 0 {
+		classes = append(classes, "feat:chunk-min")
+	}
+	for _, o := range c.Program {
+		if o.Kind == "layer-add" {
+			if o.Stream {
+				classes = append(classes, "layer-add:stream-reader")
+			}
+			if o.Layer != nil && len(o.Layer.Files) == 0 {
+				classes = append(classes, "layer-add:empty-tar")
+			}
+		}
+		if o.BaseSelf {
+			classes = append(classes, "opt-time:base-ref-is-source")
+		}
 	}
 	comps := map[string]bool{}
 	for _, im := range c.Images {
@@ -652,7 +759,22 @@ func check(c Case, ev *evid.Collector) *evid.Violation {
 			if l.Data {
 				comps["layer:inline-data"] = true
 			}
+			if len(l.Files) == 0 {
+				comps["layer:empty-tar"] = true
+			}
+			if l.Foreign && l.ForeignAbsent {
+				comps["layer:foreign-content-absent"] = true
+			}
 			for _, f := range l.Files {
+				if f.Type == "h" {
+					comps["layer:hardlink"] = true
+				}
+				if len(f.Name) > 99 {
+					comps["layer:long-name"] = true
+				}
+				if f.Big >= 32768 {
+					comps["layer:file>=32KiB"] = true
+				}
 				if f.Type == "w" {
 					comps["layer:whiteout"] = true
 				}
@@ -663,6 +785,14 @@ func check(c Case, ev *evid.Collector) *evid.Violation {
 		}
 		if im.History == nil {
 			comps["config:no-history"] = true
+		}
+		if len(im.Layers) == 0 {
+			comps["shape:image-without-own-layers"] = true
+		}
+		for _, h := range im.History {
+			if h.NoCreated {
+				comps["config:history-entry-without-created"] = true
+			}
 		}
 		if im.ConfigData {
 			comps["config:inline-data"] = true
@@ -724,6 +854,9 @@ func check(c Case, ev *evid.Collector) *evid.Violation {
 		sig := recognise(c, out.B, out.F)
 		if sig == "" {
 			sig = out.F.Clause + ":" + culprit(c, out.F.Clause)
+			if strings.HasPrefix(out.F.Clause, "chain-") {
+				sig += ">" + strings.Join(dedup(kinds(c.Chain)), "+")
+			}
 		}
 		return evid.V(sig, "%s\n  case: %s %s", out.F.Msg, c.shape(), progString(c.Program))
 	}
